@@ -96,6 +96,16 @@ def grid(tables):
                     'rest': {'core': {'neg': False, 'lead': None, 'operand': leaf(1), 'hold': None}}})
         out.append({'core': {'neg': False, 'lead': 'after', 'operand': leaf(0), 'hold': [False, 'eventually']}, 'd': d,
                     'rest': {'core': {'neg': False, 'lead': 'before', 'operand': leaf(1), 'hold': [False, 'always']}}})
+    # a unary operator (leading or holding) over a COMPOUND operand, nested inside an enclosing connective: the parentheses matter
+    for lead in LEADS:
+        for d_in, d_out in (('or', 'and'), ('and', 'or'), ('or', 'or')):
+            out.append({'core': {'neg': False, 'lead': None, 'operand': leaf(1), 'hold': None}, 'd': d_out,
+                        'rest': {'core': {'neg': False, 'lead': lead, 'operand': {'l': {'ent': 0}, 'd': d_in, 'r': leaf(1)}, 'hold': None}}})
+            out.append({'core': {'neg': False, 'lead': lead, 'operand': {'l': {'ent': 0}, 'd': d_in, 'r': leaf(1)}, 'hold': None}, 'd': d_out,
+                        'rest': {'core': {'neg': False, 'lead': None, 'operand': leaf(0), 'hold': None}}})
+            out.append({'core': {'neg': False, 'lead': None, 'operand': leaf(1), 'hold': None}, 'd': d_out,
+                        'rest': {'core': {'neg': False, 'lead': None, 'operand': {'l': {'ent': 0}, 'd': d_in, 'r': leaf(1)},
+                                          'hold': [False, lead]}}})
     for c in CONSTS:
         out.append({'core': {'neg': False, 'lead': None, 'operand': {'l': {'ent': 0}, 'd': 'and', 'r': {'leaf': {'const': c}}}, 'hold': None}})
         out.append({'core': {'neg': False, 'lead': None, 'operand': {'l': {'const': c}, 'd': 'or', 'r': leaf(1)}, 'hold': None}})
@@ -188,6 +198,72 @@ def _telingo_job(args):
             return {'err': f'{len(table)} traces of length {h} instead of {4 ** h}'}
         res[h] = table
     return {'ok': res}
+
+
+def _multi_job(args):
+    text, horizons = args
+    r = rt.compile_cnl(DECL + text)
+    if r[0] != 'ok':
+        return {'rejected': str(r[1])[:200]}
+    rule = [l for l in r[1].split('\n') if l.startswith('fired(1)')]
+    if len(rule) != 1:
+        return {'program': r[1], 'err': 'no single fired rule'}
+    t = _telingo_job((rule[0], horizons))
+    t['rule'] = rule[0]
+    return t
+
+
+def multi_clause(run, rng, tier, horizons):
+    """one rule with SEVERAL whenever clauses over plain / previously / initially occurrences (also of the same entity): the rule
+    fires exactly where every clause holds (previously = in the state before, initially = in the first state)"""
+    ents = ['alpha', 'beta']
+    forms = []
+    opts = [(e, p, n) for e in (0, 1) for p in ('', 'previously', 'initially') for n in (False, True)]
+    for a in opts:
+        for b in opts:
+            if a < b and (a[1] or b[1]):
+                forms.append([a, b])
+    rng2 = random.Random(rng.random())
+    rng2.shuffle(forms)
+    forms = forms[:24] if tier == 'quick' else forms
+    forms.append([(0, '', False), (0, 'previously', False), (0, 'initially', False)])
+    def clause(e, p, n):
+        art = 'an' if ents[e][0] in 'aeiou' else 'a'
+        return f'whenever there is {"not " if n else ""}{p + " " if p else ""}{art} {ents[e]} with id 1'
+    jobs = []
+    for f in forms:
+        text = ', '.join(clause(*c) for c in f)
+        text = text[0].upper() + text[1:] + ', then we must have a fired with id 1.'
+        jobs.append((text, horizons))
+    results = rt.pmap(_multi_job, jobs, chunksize=1)
+    for f, (text, _), r in zip(forms, jobs, results):
+        key = '+'.join(sorted((('not-' if n else '') + (p or 'plain')) for _, p, n in f)) + ('/same-entity' if len({e for e, _, _ in f}) == 1 else '')
+        run.count(('multi-clause', text))
+        replay = {'cnl': DECL + text, 'rule': r.get('rule')}
+        if 'rejected' in r:
+            run.violation(f'rejected/multi-clause/{key}', f'rejected: {r["rejected"][:150]}', replay)
+            continue
+        if 'err' in r:
+            run.violation(f'telingo-error/multi-clause/{key}', f'telingo failed on {r.get("rule")!r}: {str(r["err"])[:200]}', replay)
+            continue
+        bad = None
+        for h, table in r['ok'].items():
+            for tr, fired in table.items():
+                run.coverage['evaluations'] += 1
+                def holds(i, e, p, n):
+                    v = tr[i][e] if not p else (i > 0 and tr[i - 1][e]) if p == 'previously' else tr[0][e]
+                    return v != n
+                expect = [all(holds(i, *c) for c in f) for i in range(len(tr))]
+                if expect != fired:
+                    bad = (tr, fired, expect)
+                    break
+            if bad:
+                break
+        if bad:
+            tr, fired, expect = bad
+            run.violation(f'meaning/multi-clause/{key}', f'on trace {[list(x) for x in tr]} the rule {r["rule"]!r} fires at '
+                          f'{[i for i, x in enumerate(fired) if x]} but all clauses hold at {[i for i, x in enumerate(expect) if x]}',
+                          dict(replay, trace=[list(x) for x in tr], telingo_fired=fired, reference=expect))
 
 
 def main(tier):
@@ -336,6 +412,7 @@ def main(tier):
             else:
                 continue
             break
+    multi_clause(run, rng, tier, horizons)
     run.coverage['conditions'] = stats
     run.coverage['exhaustive'] = True
     for (t, p, kind), c in list(zip(conds, comp))[:3] + list(zip(conds, comp))[-2:]:
